@@ -290,7 +290,20 @@ func init() {
 			less := a[1]
 			n := m.concLen(sl.len, "sort.Slice len")
 			if n > 12 {
-				m.stop("inconclusive", "sort.Slice model only exact for n<=12")
+				// beyond insertion sort: run the real pattern-defeating quicksort of package sort
+				// with a swap function over the executor's slice
+				sp := m.prog.ImportedPackage("sort")
+				if sp == nil || sp.Func("pdqsort_func") == nil {
+					m.stop("inconclusive", "sort.Slice: package sort not loaded")
+				}
+				m.ensureInit(sp)
+				swap := &Builtin{name: "gosx:swap", data: sl}
+				limit := 0
+				for x := n; x > 0; x >>= 1 {
+					limit++
+				}
+				m.callSSA(c, sp.Func("pdqsort_func"), []value{Struct{less, swap}, conc(64, 0), conc(64, uint64(n)), conc(64, uint64(limit))}, nil)
+				return nil
 			}
 			for i := 1; i < n; i++ {
 				for j := i; j > 0; j-- {
